@@ -1,4 +1,4 @@
-import FatVerif.Proofs.DirReadSim11
+import FatVerif.Proofs.DirWriteSim5
 /-! # C01 (simulation) — the effectful directory READER is the pure reader on the bytes of the image
 
 The directory code of the model (`Model/DirOps.lean`, programs over a device) and the slot-list algebra
@@ -380,6 +380,94 @@ theorem checkForExistence_chain_sim {d : Dev} {c0 : Nat} {ent : Option DirEntryE
   rw [← h.slots_eq]
   exact h.dir.dirSrc.checkForExistence_sim h.fuel ha env name isDir d (SameVol.refl d)
 
+/-! ## WRITES, first step: removing an entry from the fixed root directory
+
+`deleteEntry` (the slot-deleting loop of `remove` and `rename`: read a slot, `set_deleted`, seek back, write it, for
+every slot of the entry) is simulated by `DirSlots.deleteRange` on the root slots of the image. The statement is about
+the image AFTER the run (the bytes behind the status byte): the image must be well formed (`Img.WF`: all pages have the
+page size — true of `Img.empty` and preserved by every run) and the root region must lie behind the status byte. -/
+
+open FatVerif.FileSim in
+theorem rootSliceOf_geomEq {a b : FsState} (h : FsGeomEq a b) : rootSliceOf b = rootSliceOf a := by rw [h]; rfl
+
+open FatVerif.FileSim in
+theorem dirFuel_geomEq {a b : FsState} (h : FsGeomEq a b) : dirFuel b = dirFuel a := by rw [h]; rfl
+
+/-- **`deleteEntry_sim`, fixed root**: for a listed entry `le`, `deleteEntry(root, entry)` succeeds on a fault-free
+    device; afterwards the root slots of the image are `DirSlots.deleteRange` of the slots before over the slot range
+    of the entry, the volume is marked dirty, the bytes from `0x42` on outside the root region are untouched, and the
+    root directory is readable again (so the read theorems above apply to the new device) -/
+theorem deleteEntry_root_sim {d : Dev} {N : Nat} (h : RootReadable d N) (hwf : d.img.WF)
+    (hB : 0x42 ≤ (rootSliceOf d.fs).beginOff) (le : LfnEntry)
+    (hmem : le ∈ readDirEntries d.fs.lfnAlloc true (rootDirSlots d.fs d.img)) :
+    ∃ d', run (deleteEntry (rootAt d.fs 0) (toDirEntry (rootSliceOf d.fs).beginOff le)) d = (.ok (), d') ∧
+      rootDirSlots d'.fs d'.img = DirSlots.deleteRange (rootDirSlots d.fs d.img) le.beginIdx le.endIdx ∧
+      d'.fs.curDirty = true ∧ d'.img.WF ∧ RootReadable d' N ∧
+      (∀ q, 0x42 ≤ q → ¬ ((rootSliceOf d.fs).beginOff ≤ q ∧ q < (rootSliceOf d.fs).beginOff + (rootSliceOf d.fs).size) →
+        d'.img.getByte q = d.img.getByte q) := by
+  have hb := readLoop_bounds d.fs.lfnAlloc true (rootDirSlots d.fs d.img) 0 0 _ (Nat.le_refl _) le hmem
+  rw [rootDirSlots_length h, Nat.zero_add] at hb
+  obtain ⟨k, hk⟩ : ∃ k, le.endIdx = le.beginIdx + k := ⟨le.endIdx - le.beginIdx, by omega⟩
+  obtain ⟨d', hr, hs, hd, _, hsl, hfr⟩ := root_deleteEntry (rootSliceOf d.fs) N h.slots rfl rfl hB
+    (toDirEntry (rootSliceOf d.fs).beginOff le) le.beginIdx k rfl (by simp only [toDirEntry]; rw [hk])
+    (by omega) d h.noFault h.inside hwf
+  have hg := rootSliceOf_geomEq hs.geom
+  refine ⟨d', hr, ?_, hd (by omega), hs.wf hwf, ?_, hfr⟩
+  · unfold rootDirSlots
+    rw [hg, hsl, hk]
+  · exact ⟨by rw [hs.failAt]; exact h.noFault, by rw [hg, hs.size]; exact h.inside, by rw [hg]; exact h.slots,
+      by rw [dirFuel_geomEq hs.geom]; exact h.fuel⟩
+
+/-! ## WRITES, second step: `write_entry` and `create_file` in the fixed root directory -/
+
+/-- a device after a root-directory write: readable again -/
+theorem RootReadable.of_volStep {d d' : Dev} {N : Nat} (h : RootReadable d N) (hs : VolStep d d') : RootReadable d' N :=
+  ⟨by rw [hs.failAt]; exact h.noFault, by rw [rootSliceOf_geomEq hs.geom, hs.size]; exact h.inside,
+   by rw [rootSliceOf_geomEq hs.geom]; exact h.slots, by rw [dirFuel_geomEq hs.geom]; exact h.fuel⟩
+
+/-- **`writeEntry_sim`, fixed root**: `write_entry(name, raw)` for an ordinary valid name whose slots fit into the root
+    region (`find_free_entries` position + number of slots ≤ `N`; otherwise the call fails — not covered) succeeds;
+    the root slots of the image afterwards are `DirSlots.writeEntry` of those before, with the UTF-16 units of the name
+    and the serialised short record -/
+theorem writeEntry_root_sim {d : Dev} {N : Nat} (h : RootReadable d N) (hwf : d.img.WF)
+    (hB : 0x42 ≤ (rootSliceOf d.fs).beginOff) (name : String) (raw : DirFileEntryData)
+    (hval : Names.validateLongName name = .ok ()) (hdot : (name = "." || name = "..") = false) (hraw : raw.WF)
+    (hfit : DirSlots.findFree (rootDirSlots d.fs d.img) (Lfn.numParts (Names.encodeUtf16 name.toList).length + 1) +
+      (Lfn.numParts (Names.encodeUtf16 name.toList).length + 1) ≤ N) :
+    ∃ (d' : Dev) (e : DirEntry), run (writeEntry (rootAt d.fs 0) name raw) d = (.ok e, d') ∧
+      e.data = raw ∧ e.lfn = Names.encodeUtf16 name.toList ∧
+      rootDirSlots d'.fs d'.img =
+        DirSlots.writeEntry (rootDirSlots d.fs d.img) (Names.encodeUtf16 name.toList) raw.serialize ∧
+      d'.fs.curDirty = true ∧ d'.img.WF ∧ RootReadable d' N := by
+  obtain ⟨d', hr, hs, hd, hsl, _⟩ := root_writeEntry (rootSliceOf d.fs) N h.slots rfl rfl hB name raw hval hdot hraw d
+    h.noFault h.inside hwf h.fuel hfit
+  refine ⟨d', _, hr, rfl, rfl, ?_, hd, hs.wf hwf, h.of_volStep hs⟩
+  unfold rootDirSlots
+  rw [rootSliceOf_geomEq hs.geom, hsl]
+
+/-- **`createFile_sim`, fixed root** (end to end, single-component path, free name, `alloc` feature): the alias is the one
+    `DirAlias.checkForExistenceL` chooses from the root slots of the image — the alias of the C16 theorems —, the short
+    record is `sfnAt` (attributes 0, no cluster, the three time stamps from the clock), and the root slots afterwards
+    are `DirSlots.writeEntry` of those before -/
+theorem createFile_root_sim {d : Dev} {N : Nat} (h : RootReadable d N) (hwf : d.img.WF)
+    (hB : 0x42 ≤ (rootSliceOf d.fs).beginOff) (ha : d.fs.lfnAlloc = true) (env : Env) (path name : String)
+    (hsp : Names.splitPath path = (name, none)) (hdot : (name = "." || name = "..") = false)
+    (hval : Names.validateLongName name = .ok ()) (a : List Nat)
+    (hchk : DirAlias.checkForExistenceL env.upper (rootDirSlots d.fs d.img) name (some false) 70000 = .ok (.alias a))
+    (hfit : DirSlots.findFree (rootDirSlots d.fs d.img) (Lfn.numParts (Names.encodeUtf16 name.toList).length + 1) +
+      (Lfn.numParts (Names.encodeUtf16 name.toList).length + 1) ≤ N) (fuel : Nat) :
+    ∃ (d' : Dev) (e : DirEntry), run (createFile env (fuel + 1) (rootAt d.fs 0) path) d =
+        (.ok (FileH.new (e.firstCluster d.fs) (some e.editor)), d') ∧
+      e.data = sfnAt d.fs d.clock a 0 none ∧ e.lfn = Names.encodeUtf16 name.toList ∧
+      rootDirSlots d'.fs d'.img = DirSlots.writeEntry (rootDirSlots d.fs d.img) (Names.encodeUtf16 name.toList)
+        (sfnAt d.fs d.clock a 0 none).serialize ∧
+      d'.fs.curDirty = true ∧ d'.img.WF ∧ RootReadable d' N := by
+  obtain ⟨d', e, hr, he1, he2, hs, hd, hsl, _⟩ := root_createFile (rootSliceOf d.fs) N h.slots rfl rfl hB env path name
+    hsp hdot hval d h.noFault h.inside hwf h.fuel ha a hchk hfit fuel
+  refine ⟨d', e, hr, he1, he2, ?_, hd, hs.wf hwf, h.of_volStep hs⟩
+  unfold rootDirSlots
+  rw [rootSliceOf_geomEq hs.geom, hsl]
+
 /-! ## non-vacuity: a sub-directory of two clusters (the listing crosses the cluster boundary through the FAT) -/
 
 namespace Ex2
@@ -490,5 +578,52 @@ theorem Ex3.resolves :
 example : Reads (openFile Ex3.env 3 (rootAt Ex3.dev.fs 0) "SUB/hello.TXT") Ex3.dev
     (FileH.new (Ex3.fileE.firstCluster Ex3.dev.fs) (some Ex3.fileE.editor)) :=
   openFile_sim Ex3.resolves Ex3.dev (SameVol.refl _)
+
+/-! ## non-vacuity: removing "Hello.txt" (slots 0–1) from the root directory of `Ex` -/
+
+namespace Ex4
+/-- the volume of `Ex`, its first page filled up to the page size (a well-formed image) -/
+def bytes : List Nat := List.replicate 1024 0 ++ Ex.slots.flatten ++ List.replicate (4096 - 1024 - 96) 0
+def dev : Dev := { img := Img.ofBytes bytes 8192, fs := Ex.fs }
+/-- the listed entry of "Hello.txt": long-name slot 0, short slot 1 -/
+def hello : LfnEntry := ⟨(DirFileEntryData.new Ex.sfn1 0x20).serialize, Names.encodeUtf16 "Hello.txt".toList, 0, 2⟩
+end Ex4
+
+theorem Ex4.readable : RootReadable Ex4.dev 16 := ⟨rfl, by decide, by decide, by decide⟩
+
+theorem Ex4.wf : Ex4.dev.img.WF := by
+  intro k p hk
+  simp only [Ex4.dev, Img.ofBytes, Std.HashMap.getElem?_insert] at hk
+  split at hk
+  · cases hk; decide +kernel
+  · simp at hk
+
+/-- the hypotheses of `deleteEntry_root_sim` hold of `Ex4.dev` and the entry of "Hello.txt"; the slots it predicts for
+    the image after the run: slots 0 and 1 marked deleted (first byte `0xE5`), "B" still listed -/
+example : 0x42 ≤ (rootSliceOf Ex4.dev.fs).beginOff ∧
+    Ex4.hello ∈ readDirEntries Ex4.dev.fs.lfnAlloc true (rootDirSlots Ex4.dev.fs Ex4.dev.img) ∧
+    ((DirSlots.deleteRange (rootDirSlots Ex4.dev.fs Ex4.dev.img) 0 2).take 3).map (·.getD 0 0) = [0xE5, 0xE5, 66] ∧
+    (DirSlots.listing (DirSlots.deleteRange (rootDirSlots Ex4.dev.fs Ex4.dev.img) 0 2)).map (fun e => Lfn.sfnName e.sfn)
+      = [Ex.sfn2] := by
+  decide +kernel
+
+/-- … and the theorem applied to it -/
+example : ∃ d', run (deleteEntry (rootAt Ex4.dev.fs 0) (toDirEntry (rootSliceOf Ex4.dev.fs).beginOff Ex4.hello)) Ex4.dev
+      = (.ok (), d') ∧
+    rootDirSlots d'.fs d'.img = DirSlots.deleteRange (rootDirSlots Ex4.dev.fs Ex4.dev.img) 0 2 ∧
+    d'.fs.curDirty = true := by
+  obtain ⟨d', h1, h2, h3, _⟩ := deleteEntry_root_sim Ex4.readable Ex4.wf (by decide) Ex4.hello (by decide +kernel)
+  exact ⟨d', h1, h2, h3⟩
+
+/-- the hypotheses of `createFile_root_sim` hold of `Ex4.dev` and the new name "New file.txt": the alias chosen from
+    the root slots is `NEWFIL~1TXT`, the entry (2 slots) goes to slots 3–4 (from the first end marker on), which fits -/
+example :
+    Names.splitPath "New file.txt" = ("New file.txt", none) ∧ Names.validateLongName "New file.txt" = .ok () ∧
+    DirAlias.checkForExistenceL Ex3.env.upper (rootDirSlots Ex4.dev.fs Ex4.dev.img) "New file.txt" (some false) 70000 =
+      .ok (.alias [78, 69, 87, 70, 73, 76, 126, 49, 84, 88, 84]) ∧
+    DirSlots.findFree (rootDirSlots Ex4.dev.fs Ex4.dev.img)
+      (Lfn.numParts (Names.encodeUtf16 "New file.txt".toList).length + 1) = 3 ∧
+    Lfn.numParts (Names.encodeUtf16 "New file.txt".toList).length + 1 = 2 := by
+  decide +kernel
 
 end FatVerif.DirSim
